@@ -53,6 +53,7 @@ type c15rOp struct {
 	Md  string   `json:"md,omitempty"` // brk: stall close cancel error
 	N   int      `json:"n,omitempty"`  // build/reload: failing Gets first
 	Mid []c15rEv `json:"mid,omitempty"`
+	Gap []c15rEv `json:"gap,omitempty"` // brk: events on prefix P after the streams ended, before the watches are re-created
 	Sch []int    `json:"sch,omitempty"`
 }
 
@@ -258,7 +259,15 @@ func c15rInterp(t *testing.T, c c15rCase) (v kit.Verdict) {
 				if o.Md == "stall" {
 					continue
 				}
-				fake.Break(o.Md)
+				var gap []internal.C15Gap
+				for _, e := range o.Gap {
+					g := toggle(p, e)
+					gap = append(gap, internal.C15Gap{Del: g.del, Key: g.key, Val: g.val})
+				}
+				if len(gap) > 0 && has(p) {
+					classes["events-in-gap-before-watch-retry"] = true
+				}
+				fake.Break(o.Md, gap)
 				kit.Wait()
 				pump(o.Sch)
 				if !check(what, nil) {
@@ -436,6 +445,12 @@ func c15rGen(rt *rapid.T) c15rCase {
 		case "brk":
 			o.Md = rapid.SampledFrom([]string{"stall", "stall", "close", "cancel", "error"}).Draw(rt, "mode")
 			outage = o.Md == "stall" || rapid.Bool().Draw(rt, "outage")
+			if o.Md != "stall" && rapid.Bool().Draw(rt, "hasgap") {
+				o.P = pickPrefix("gapp")
+				for j := rapid.IntRange(1, 3).Draw(rt, "ngap"); j > 0; j-- {
+					o.Gap = append(o.Gap, ev())
+				}
+			}
 			if o.Md != "stall" && rapid.Bool().Draw(rt, "hassched") {
 				o.Sch = rapid.SliceOfN(rapid.IntRange(0, 3), 1, 8).Draw(rt, "sched")
 			}
